@@ -1,0 +1,59 @@
+//! Verification hooks, compiled only with the `verif-hooks` feature.
+//!
+//! Everything in here is inert unless an external harness installs a clock source or reads the
+//! work counter: `Instant::now()` falls back to the real monotonic clock and `tick()` only bumps a
+//! thread-local counter.
+
+use core::cell::Cell;
+
+std::thread_local! {
+    static TICKS: Cell<u64> = const { Cell::new(0) };
+    static CLOCK: Cell<Option<fn() -> std::time::Instant>> = const { Cell::new(None) };
+    static POINT: Cell<Option<fn(&'static str)>> = const { Cell::new(None) };
+}
+
+/// Count one unit of decoder work on the current thread.
+#[inline]
+pub fn tick() {
+    TICKS.with(|t| t.set(t.get().wrapping_add(1)));
+}
+
+/// Read and reset the work counter of the current thread.
+pub fn take_ticks() -> u64 {
+    TICKS.with(|t| t.replace(0))
+}
+
+/// Install (or remove) the clock source used by [`Instant::now`] on the current thread.
+pub fn set_clock(source: Option<fn() -> std::time::Instant>) {
+    CLOCK.with(|c| c.set(source));
+}
+
+/// Install (or remove) a callback invoked at named instrumentation points on the current thread.
+pub fn set_point_callback(cb: Option<fn(&'static str)>) {
+    POINT.with(|c| c.set(cb));
+}
+
+/// Invoke the instrumentation point callback, if one is installed.
+pub fn point(name: &'static str) {
+    if let Some(cb) = POINT.with(|c| c.get()) {
+        cb(name);
+    }
+}
+
+/// Drop-in for the `std::time::Instant::now()` call sites that a harness needs to control.
+///
+/// Used by placing `use hickory_proto::verif::Instant;` inside a function body, which shadows the
+/// module-level `std::time::Instant` import for that body only.
+#[derive(Clone, Copy, Debug)]
+pub struct Instant;
+
+impl Instant {
+    /// The current instant: the installed clock source if any, else the real clock.
+    #[allow(clippy::new_ret_no_self)]
+    pub fn now() -> std::time::Instant {
+        match CLOCK.with(|c| c.get()) {
+            Some(source) => source(),
+            None => std::time::Instant::now(),
+        }
+    }
+}
